@@ -219,6 +219,43 @@ def codec_roundtrip(rep, rng, n):
             continue
         dec_cases.append(chain_case([{"wrap": {"$value": text, "$decode": f}}], env={}, tail=("outdocs",)))
         idx.append((i, text, kf))
+    # transcode: one map carrying `$value` (text), `$decode: f` and `$encode: g` decodes first and encodes the result
+    tr_cases, tr_idx = [], []
+    for (i, text, kf) in idx:
+        if kf or rng.random() > 0.4:
+            continue
+        v, f = vals[i]
+        g = rng.choice(CODECS + ["values", "base64"])
+        tr_cases.append(chain_case([{"wrap": {"$value": text, "$decode": f, "$encode": g}}], env={}, tail=("outdocs",)))
+        tr_idx.append((i, g, text))
+    tr = run_go([to_op(c, j) for j, c in enumerate(tr_cases)])
+    for j, (i, g, text) in enumerate(tr_idx):
+        v, f = vals[i]
+        last = ((tr.get(j) or {}).get("res") or [{}])[-1]
+        rep.count("transcode:" + ("ok" if "ok" in last else "err"))
+        rep.traces += 1
+        if g == "toml" and not formats.toml_ok(v):
+            continue
+        want_fail = False
+        out = None
+        if "ok" in last and last["ok"]:
+            o = from_wire(last["ok"][0])
+            out = o.get("wrap") if isinstance(o, dict) else None
+        good = False
+        try:
+            if g in CODECS:
+                parsed = formats.load_all(g, out) if isinstance(out, str) else None
+                good = parsed is not None and len(parsed) == 1 and formats.same(parsed[0], v)
+            elif g == "values":
+                good = "ok" in last and formats.same(out, [v[k] for k in sorted(v)])
+            else:
+                good = isinstance(out, str) and out == base64.b64encode(gofmt(v).encode()).decode()
+        except Exception:
+            good = False
+        if not good and last.get("err") in ("invalidDirective", "requiredField"):
+            continue
+        if not good and len(rep.violations) < 6:
+            rep.violation(f"$decode: {f} + $encode: {g} in one map does not decode, then encode", {"value": v, "format": f, "text": text, "encode": g, "impl": last})
     dec = run_go([to_op(c, j) for j, c in enumerate(dec_cases)])
     for j, (i, text, kf) in enumerate(idx):
         v, f = vals[i]
